@@ -28,7 +28,7 @@ const (
 	NodeIDLength       = 20
 	ClientMinPad       = 77
 	ClientMaxPad       = MaxHandshakeLength - (RepLength + MarkLength + MacLength) // 8128
-	SeedFrameLength    = 2 + 16 + 3 + 24                                            // 45
+	SeedFrameLength    = 2 + 16 + 3 + 24                                           // 45
 	ServerMaxPad       = MaxHandshakeLength - (RepLength + AuthLength + MarkLength + MacLength) - SeedFrameLength
 	MaxSegment         = 1448
 	FrameOverhead      = 2 + 16
